@@ -427,7 +427,7 @@ Definition oom_leak (kind : N) (r : oom_outcome * Z * nat) : Z :=
 
 (* number of distinct values = dict->size after Build *)
 Definition oom_distinct (vals : list N) : N :=
-  match dict_build vals with BuildOk d => d_size d | _ => 0 end.
+  match dict_build vals with DictBuildOk d => dct_size d | _ => 0 end.
 (* capacity of a dictionary created and built with prev (not built when empty) *)
 Definition oom_dict_cap (prev : list N) : N := N.max 16 (oom_distinct prev).
 Definition oom_dict_grow (prev vals : list N) : bool := oom_dict_cap prev <? oom_distinct vals.
